@@ -53,7 +53,7 @@ AmocoDevSet == {AmocoDevs[k] : k \in DOMAIN AmocoDevs}
 
 Init0(mode, dev) ==
   [mode |-> mode, dev |-> dev, st |-> "Prefix", pos |-> 0, npfx |-> 0,
-   p66 |-> FALSE, p67 |-> FALSE, pc |-> "n", seg |-> FALSE, lock |-> FALSE, nrep |-> 0,
+   p66 |-> FALSE, p67 |-> FALSE, pc |-> "n", lock |-> FALSE,
    rex |-> -1, opsize |-> 32, adsize |-> mode, map |-> 1, op |-> -1,
    aid |-> 0, kind |-> "x", mod |-> -1, rm |-> -1, sib |-> -1,
    ndisp |-> 0, nimm |-> 0, dpos |-> 0, ipos |-> 0, br |-> FALSE]
@@ -65,9 +65,12 @@ Out(s)  == [s EXCEPT !.st = "Out"]
 (***************************************************************************)
 OpSize(s)  == IF s.rex >= 8 THEN 64 ELSE IF s.p66 THEN 16 ELSE 32
 AdSize(s)  == IF s.mode = 64 THEN (IF s.p67 THEN 32 ELSE 64) ELSE (IF s.p67 THEN 16 ELSE 32)
-\* column of the attribute tuples <<none, 66, F2, F3,  none, 66, F2, F3 with REX.W>>: the last F2/F3 wins over 66
-PcIdx(s)   == (IF s.pc = "F2" THEN 3 ELSE IF s.pc = "F3" THEN 4 ELSE IF s.p66 THEN 2 ELSE 1)
-              + (IF s.rex >= 8 THEN 4 ELSE 0)
+\* column of the attribute tuples <<none, 66, F2, F3, 66+F2, 66+F3>> (without REX.W, then the same six with
+\* REX.W); of several F2/F3 the last one counts
+PcIdx(s)   == (IF s.pc = "F2" THEN (IF s.p66 THEN 5 ELSE 3)
+               ELSE IF s.pc = "F3" THEN (IF s.p66 THEN 6 ELSE 4)
+               ELSE IF s.p66 THEN 2 ELSE 1)
+              + (IF s.rex >= 8 THEN 6 ELSE 0)
 
 ImmBytes(kind, opsize, adsize) ==
   CASE kind = "0"  -> 0
@@ -121,10 +124,12 @@ PrefixStep(s, b) ==
   IF s.rex >= 0 THEN Out(s)                       \* legacy prefix after REX
   ELSE IF b = 102 THEN [t EXCEPT !.p66 = TRUE]
   ELSE IF b = 103 THEN [t EXCEPT !.p67 = TRUE]
-  ELSE IF b = 242 THEN [t EXCEPT !.pc = "F2", !.nrep = @ + 1]
-  ELSE IF b = 243 THEN [t EXCEPT !.pc = "F3", !.nrep = @ + 1]
+  ELSE IF b = 242 THEN [t EXCEPT !.pc = "F2"]
+  ELSE IF b = 243 THEN [t EXCEPT !.pc = "F3"]
+  \* segment overrides and LOCK do not change the length; LOCK is remembered only to keep it a byte class
+  \* of its own (the generator must be able to leave it out: LLVM prints it as a line of its own)
   ELSE IF b = 240 THEN [t EXCEPT !.lock = TRUE]
-  ELSE [t EXCEPT !.seg = TRUE]
+  ELSE t
 
 AfterOpcode(s, op) ==
   LET id == OpId(s.mode, s.map, op)
@@ -259,8 +264,7 @@ PfxComplete(st, cls) ==
   \/ \E q \in PfxSeqs : Len(q) = Len(h) /\ \A i \in 1..Len(h) : q[i] \in h[i].c
 
 \* prefix sequences used by the generator configurations (66 67 F2 F3 2E 64 65; no LOCK, one F2/F3 at most)
-PfxQuick == {<<>>, <<102>>, <<103>>, <<242>>, <<243>>, <<46>>, <<102, 103>>, <<243, 102>>, <<102, 242>>,
-             <<100, 102>>, <<103, 101>>, <<102, 102>>}
+PfxQuick == {<<>>, <<102>>, <<103>>, <<242>>, <<243>>, <<46>>, <<102, 103>>, <<243, 102>>, <<100, 103, 102>>}
 PfxAtoms == {102, 103, 242, 243, 46, 100}
 Reps(q) == Cardinality({i \in DOMAIN q : q[i] \in {242, 243}})
 PfxThorough == {<<>>} \cup {<<a>> : a \in PfxAtoms}
